@@ -94,10 +94,15 @@ var registry = map[string]func(t *testing.T, c *Collector){
 		c.res.Bound = bound + fmt.Sprintf("; %d concurrent scenarios with preemption bound %d", len(scs), scs[0].Bound)
 	},
 	"C17": func(t *testing.T, c *Collector) {
-		c.res.Rule = "all interleavings (<= bound preemptions) of Close with the real flusher goroutine and both GC goroutines, with ticks of the fake clock placing a flush, a primary-GC cycle and/or an index-GC cycle in progress, optionally a concurrent writer; oracle at the moment Close returns: nil error, no goroutine executing store code (runtime.Stack census), 0 open descriptors (MemFS ledger); after 3x the GC interval of fake time: no file-system mutation, census still empty; the directory reopens as a linearization of the acknowledged calls, also after a further GC round; plus failing opens and 20 open/close cycles (sequential); non-trivial = two threads alternated on the same lock or file"
+		c.res.Rule = "all interleavings (<= bound preemptions) of Close with the real flusher goroutine and both GC goroutines, with ticks of the fake clock placing a flush, a primary-GC cycle and/or an index-GC cycle in progress, optionally a concurrent writer; oracle at the moment Close returns: nil error, no goroutine executing store code (runtime.Stack census), 0 open descriptors (MemFS ledger); after 3x the GC interval of fake time: no file-system mutation, census still empty; the directory reopens as a linearization of the acknowledged calls, also after a further GC round; plus failing opens and 20 open/close cycles (sequential), plus single-fault enumeration: one EIO at the n-th file-system call of open/ops/close, re-bucketing open/close and reads/close sequences, for every n, same resource oracle; non-trivial = two threads alternated on the same lock or file"
 		scs := c17Scenarios(c.job.Tier)
 		c.res.Bound = fmt.Sprintf("%d scenarios, preemption bound %d (GC-in-progress scenarios: %d); 8 failing-open situations; 20 open/close cycles", len(scs), scs[0].Bound, scs[0].Bound-1)
+		if os.Getenv("VERIF_ONLY") == "faults" { // development aid
+			runC17Faults(t, c)
+			return
+		}
 		runC17Seq(t, c)
+		runC17Faults(t, c)
 		runConcScenarios(t, c, scs)
 	},
 	"C12": func(t *testing.T, c *Collector) {
